@@ -21,7 +21,7 @@ import time
 
 import z3
 
-from vlib import chrun, discharge, families, harness, layout, netcheck, ref_metanet, runs, symx, sx2smt, topo as T_
+from vlib import chrun, discharge, families, harness, layout, netcheck, numrun, ref_metanet, runs, symx, sx2smt, topo as T_
 from vlib.symx import S, SymArray
 
 PID = "C13"
@@ -214,6 +214,21 @@ def work(item):
     if r["exc"] is not None:
         bad(f"step raised {type(r['exc']).__name__}: {str(r['exc'])[:200]}")
         return acc.done()
+    if pass_engine:
+        # a step with an explicit engine that FAILS (a model parameter is missing) must leave the selection untouched too
+        from sym_metanet import engines as _E
+        sel2 = make_recorder(inner_engine(selected if selected != "trap" else "numpy"), [])
+        _E.use(sel2)
+        try:
+            b = T_.build(topo, numrun.exact_params(topo, 1))
+            kw = T_.model_kwargs(topo, numrun.exact_params(topo, 1))
+            kw.pop("kappa")
+            b.net.step(engine=inner_engine(explicit), **kw)
+            bad("a step without the model parameter kappa did not raise")
+        except Exception:  # noqa
+            pass
+        if _E.get_current_engine() is not sel2:
+            bad("the engine selection changed after a FAILING step with an explicit engine")
     if pass_engine and r["selected_calls"]:
         bad(f"the selected engine was used although an engine was passed explicitly: {sorted(set(r['selected_calls']))[:6]}")
     if r["explicit_calls"] == 0:
